@@ -4,6 +4,7 @@ import (
 	"encoding/json"
 	"fmt"
 	"os"
+	"os/exec"
 	"path/filepath"
 	"sort"
 	"strings"
@@ -314,6 +315,15 @@ func (v *Verifier) propCheck(prop, tier string, seed int, update bool, t0 time.T
 		fmt.Printf("  obligation %s: %s\n", vi.name, vi.why)
 		rc = 1
 	}
+	if tier == "thorough" && rc == 0 && os.Getenv("VERIF_REPO") == "" {
+		v.mustFail = runMustFailCorpus(prop)
+		for name, caught := range v.mustFail {
+			if !caught {
+				fmt.Printf("ENGINE-ERROR: must-fail change %s is not reported by the check of %s: the machinery has a hole\n", name, prop)
+				rc = 2
+			}
+		}
+	}
 	v.writeEvidence(prop, tier, seed, runs, names, results, engineErrs, nviol, time.Since(t0).Seconds())
 	nd := 0
 	for _, r := range results {
@@ -338,6 +348,9 @@ func contains(xs []string, x string) bool {
 var customChecks = map[string]func(v *Verifier, prop, tier string, seed int, update bool) int{}
 
 func (v *Verifier) writeEvidence(prop, tier string, seed int, runs map[string]*FuncRun, names []string, results []*ObResult, engineErrs []string, nviol int, wall float64) {
+	if os.Getenv("VERIF_NOEVIDENCE") != "" {
+		return
+	}
 	nd := 0
 	solverTime := 0.0
 	bySolver := map[string]int{}
@@ -411,6 +424,9 @@ func (v *Verifier) writeEvidence(prop, tier string, seed int, runs map[string]*F
 		},
 		"assumptions": assumptions,
 	}
+	if v.mustFail != nil {
+		ev["coverage"].(map[string]interface{})["must_fail_corpus"] = v.mustFail
+	}
 	b, _ := json.MarshalIndent(ev, "", " ")
 	os.MkdirAll(filepath.Join(verifRoot, "evidence"), 0o755)
 	os.WriteFile(filepath.Join(verifRoot, "evidence", prop+".json"), b, 0o644)
@@ -444,4 +460,55 @@ func truncate(s string, n int) string {
 		return s[:n] + "..."
 	}
 	return s
+}
+
+// runMustFailCorpus applies every seeded change and reverted fix recorded for this property to a scratch copy of
+// /repo (outside /repo and /verif, removed afterwards) and requires the quick check to report a violation.
+func runMustFailCorpus(prop string) map[string]bool {
+	res := map[string]bool{}
+	var patches []string
+	ms, _ := filepath.Glob(filepath.Join(verifRoot, "seeded", prop+"-*", "patch.diff"))
+	patches = append(patches, ms...)
+	var kf struct {
+		Findings []struct {
+			Property string   `json:"property"`
+			Also     []string `json:"also"`
+			Reverse  string   `json:"reverse_patch"`
+		} `json:"findings"`
+	}
+	loadJSON(filepath.Join(verifRoot, "known_findings.json"), &kf)
+	for _, f := range kf.Findings {
+		if f.Reverse != "" && (f.Property == prop || contains(f.Also, prop)) {
+			patches = append(patches, filepath.Join(verifRoot, f.Reverse))
+		}
+	}
+	for _, p := range patches {
+		name := filepath.Base(filepath.Dir(p))
+		if strings.Contains(p, "reverse_fixes") {
+			name = "revert-" + strings.TrimSuffix(filepath.Base(p), ".diff")
+		}
+		dir, err := os.MkdirTemp("", "verif-mustfail-")
+		if err != nil {
+			continue
+		}
+		cp := exec.Command("rsync", "-a", "--exclude", ".git", repoRoot+"/", dir+"/repo/")
+		if err := cp.Run(); err != nil {
+			os.RemoveAll(dir)
+			continue
+		}
+		ap := exec.Command("patch", "-p1", "-s", "-i", p)
+		ap.Dir = dir + "/repo"
+		if err := ap.Run(); err != nil {
+			os.RemoveAll(dir)
+			res[name+" (patch does not apply any more)"] = true
+			continue
+		}
+		self, _ := os.Executable()
+		run := exec.Command(self, "prop", prop, "--tier", "quick")
+		run.Env = append(os.Environ(), "VERIF_REPO="+dir+"/repo", "VERIF_NOEVIDENCE=1")
+		out, _ := run.CombinedOutput()
+		res[name] = strings.Contains(string(out), "VIOLATION property="+prop)
+		os.RemoveAll(dir)
+	}
+	return res
 }
